@@ -15,9 +15,15 @@
 #include <iostream>
 // the hole phase of GeometryFixer::fixPolygonElement is private: the stream `hole-class` calls the real fixRing / fixHoles /
 // classifyHoles (all other headers are included before this point, so only this class is affected)
+// (C17_NO_HOLECLASS: built without that stream when these private members no longer exist under these names — the check then ties the
+// hole phase through the makevalid stream alone, see checks/C17.py)
+#ifndef C17_NO_HOLECLASS
 #define private public
+#endif
 #include <geos/geom/util/GeometryFixer.h>
+#ifndef C17_NO_HOLECLASS
 #undef private
+#endif
 using namespace vh;
 static void notice(const char*, ...) {}
 static void errorh(const char* fmt, ...) { if (std::getenv("C17_VERBOSE")) { va_list ap; va_start(ap, fmt); std::vfprintf(stderr, fmt, ap); std::fputc('\n', stderr); va_end(ap); } }
@@ -113,6 +119,9 @@ static std::string field(const std::string& s, const std::string& k) { size_t p 
 // `holes` (subtracted), 0 = into `shells` (added)>, `-` without interior rings, `shell-empty` when the fixed shell is empty
 static std::string holeClassLine(const Polygon* p, const std::string& toks, Out* out) {
     std::string res;
+#ifdef C17_NO_HOLECLASS
+    (void) p; (void) out; res = "unavailable";
+#else
     try {
         geos::geom::util::GeometryFixer fx(p);
         std::unique_ptr<Geometry> fixShell = fx.fixRing(p->getExteriorRing());
@@ -127,6 +136,7 @@ static std::string holeClassLine(const Polygon* p, const std::string& toks, Out*
                 if (fixShell->getNumGeometries() > 1 && !holes.empty()) out->count("multipart_shell_with_subtracted_hole"); }
         }
     } catch (std::exception&) { res = "exception"; }
+#endif
     return "H | " + toks + " | " + res;
 }
 
